@@ -559,6 +559,8 @@ def run(run):
                                        'graphite2::Segment::m_numCharinfo'])
     c12.nulstop(run, fx)
     c12.countsync(run, fx)
+    from .util import OnlyRules as _Only
+    c12.ncharsflow(_Only(run, ['TEXTFLOW'], {'TEXTFLOW': 'ONEPERCHAR'}), fx)       # 'exactly n char-infos ... the decoded input characters in order': nothing between the caller and the loop drops or skips one (shared with C12)
     try:
         c12.textexec(run, fx)            # "exactly n char-infos ... in order ... strictly increasing code-unit offsets", decided for UTF-16/32 (shared with C12)
     except AnalysisBroken as ex:
